@@ -8,7 +8,16 @@
 //! original in every field except the header length / offsets (`C06:rewidth-parse`).
 //! A subsample of the packets also goes through the op stream (`wire rewidth ...` + `wire parse ...`) so
 //! that the Lean model is compared on genuine sender packets at non-minimal widths.
+//!
+//! EVERY real-code call (Sender, Receiver, flute's parser) happens inside `Engine::exec` of the oracle-only op
+//!   wire session rewidth <fec> <tsi> <toi_max bits> <toi_init> <inband_fti> <fdt_sct> <rfc3926> <cenc 0..3>
+//!        <inband_cenc> <E> <B> <parity> <al> <interleave> <size,size,...> <content_seed> <policy> <policy_seed>
+//! (model answer `ok`; `PANIC` if flute panics) which re-derives the whole session from its parameters - the
+//! harness watchdog covers it and `eng-wire exec` replays it.  The generator only chooses parameters and reads
+//! the packets the op stashed (`crate::Stash`).
 use crate::generator::G;
+use crate::Stash;
+use harness_core::Oracle;
 use crate::rfcdec as rd;
 use crate::{flute_parse, ParseObs, PidOti, Sub};
 use flute::core::lct::Cenc;
@@ -22,7 +31,7 @@ use std::panic::AssertUnwindSafe;
 use std::rc::Rc;
 use std::time::{Duration, SystemTime, UNIX_EPOCH};
 
-const POLICIES: [&str; 5] = ["max", "tsi48-toi112", "cci128", "min-hflip", "random"];
+pub(crate) const POLICIES: [&str; 5] = ["max", "tsi48-toi112", "cci128", "min-hflip", "random"];
 const SCHEMES: [u8; 5] = [0, 5, 129, 6, 1];
 
 pub(crate) fn endpoint() -> UDPEndpoint {
@@ -71,6 +80,68 @@ impl SessP {
             self.interleave, self.sizes, self.content_seed
         )
     }
+    fn cenc_code(&self) -> u8 {
+        self.cenc as u8
+    }
+    /// the op-line form (16 tokens)
+    fn tokens(&self) -> String {
+        let b = |v: bool| v as u8;
+        let sizes: Vec<String> = self.sizes.iter().map(|s| s.to_string()).collect();
+        format!(
+            "{} {} {} {} {} {} {} {} {} {} {} {} {} {} {} {}",
+            self.scheme,
+            self.tsi,
+            self.toi_bits,
+            self.toi_init,
+            b(self.inband_fti),
+            b(self.sct),
+            b(self.rfc3926),
+            self.cenc_code(),
+            b(self.inband_cenc),
+            self.e,
+            self.b,
+            self.parity,
+            self.al,
+            self.interleave,
+            sizes.join(","),
+            self.content_seed
+        )
+    }
+    fn parse(t: &[&str]) -> Option<SessP> {
+        if t.len() != 16 {
+            return None;
+        }
+        let n = |s: &str, bits: u32| crate::nat_lt(s, bits);
+        let sizes: Vec<usize> = t[14].split(',').map(|x| n(x, 24).map(|v| v as usize)).collect::<Option<_>>()?;
+        let toi_bits = n(t[2], 8)? as u32;
+        if ![0u8, 1, 5, 6, 129].contains(&(n(t[0], 8)? as u8)) || ![16, 32, 48, 64, 80, 112].contains(&toi_bits) || sizes.is_empty() || sizes.len() > 8 {
+            return None;
+        }
+        Some(SessP {
+            scheme: n(t[0], 8)? as u8,
+            tsi: n(t[1], 64)? as u64,
+            toi_bits,
+            toi_init: n(t[3], 128)?,
+            inband_fti: crate::b01(t[4])?,
+            sct: crate::b01(t[5])?,
+            rfc3926: crate::b01(t[6])?,
+            cenc: match n(t[7], 8)? {
+                0 => Cenc::Null,
+                1 => Cenc::Zlib,
+                2 => Cenc::Deflate,
+                3 => Cenc::Gzip,
+                _ => return None,
+            },
+            inband_cenc: crate::b01(t[8])?,
+            e: n(t[9], 16)? as u16,
+            b: n(t[10], 16)? as u16,
+            parity: n(t[11], 16)? as u16,
+            al: n(t[12], 8)? as u8,
+            interleave: n(t[13], 8)? as u8,
+            sizes,
+            content_seed: n(t[15], 64)? as u64,
+        })
+    }
     fn oti(&self) -> Option<Oti> {
         let mut o = match self.scheme {
             0 => Oti::new_no_code(self.e, self.b),
@@ -102,9 +173,21 @@ impl SessP {
 
 pub(crate) type Stream = Vec<(Vec<u8>, SystemTime)>;
 
-/// run a real sender session to its end; `Err` = reason the session could not be produced
-fn run_sender(p: &SessP) -> Result<(Stream, usize), String> {
-    let oti = p.oti().ok_or("oti refused")?;
+/// why no session was produced
+pub(crate) enum NoSession {
+    /// flute refused the configuration (not a C06 matter)
+    Refused(String),
+    /// flute panicked (location)
+    Panic(String),
+}
+
+/// run a real sender session to its end
+fn run_sender(p: &SessP) -> Result<(Stream, usize), NoSession> {
+    let oti = match guarded(AssertUnwindSafe(|| p.oti())) {
+        Ok(Some(o)) => o,
+        Ok(None) => return Err(NoSession::Refused("oti refused".to_string())),
+        Err(loc) => return Err(NoSession::Panic(loc)),
+    };
     let config = sender::Config {
         fdt_inband_sct: p.sct,
         profile: if p.rfc3926 { sender::Profile::RFC3926 } else { sender::Profile::RFC6726 },
@@ -150,8 +233,8 @@ fn run_sender(p: &SessP) -> Result<(Stream, usize), String> {
         Ok((out, added))
     }));
     match r {
-        Ok(x) => x,
-        Err(loc) => Err(format!("sender panic at {}", loc)),
+        Ok(x) => x.map_err(NoSession::Refused),
+        Err(loc) => Err(NoSession::Panic(loc)),
     }
 }
 
@@ -371,10 +454,15 @@ fn session_params(g: &mut G, idx: usize, scheme: u8, tsi_class: usize, variant: 
     // debug_assert in blockencoder.rs) and tiny B does not decode: stay in the region where the baseline
     // reception is complete (E = 64, B >= 16, objects of 0, 1 or >= 200 bytes) - not a C06 matter
     let (e, b) = if scheme == 1 { (64, *rng.pick(&[16u16, 50, 64])) } else { (if e % al as u16 == 0 { e } else { 256 }, *rng.pick(&[4u16, 8, 16, 50])) };
+    let cenc = if idx % 6 == 3 { [Cenc::Zlib, Cenc::Gzip, Cenc::Deflate][(idx / 6) % 3] } else { Cenc::Null };
     if scheme == 1 {
         for s in sizes.iter_mut() {
             if *s > 1 && *s < 200 {
                 *s += 200;
+            }
+            // a compressed object must still be >= 4 symbols (half of the content is incompressible)
+            if cenc != Cenc::Null && *s > 1 && *s < 1000 {
+                *s += 1000;
             }
         }
     }
@@ -386,7 +474,7 @@ fn session_params(g: &mut G, idx: usize, scheme: u8, tsi_class: usize, variant: 
         inband_fti: idx % 2 == 0,
         sct: (idx / 2) % 2 == 0,
         rfc3926: idx % 5 == 4,
-        cenc: if idx % 6 == 3 { [Cenc::Zlib, Cenc::Gzip, Cenc::Deflate][(idx / 6) % 3] } else { Cenc::Null },
+        cenc,
         inband_cenc: idx % 4 == 1,
         e,
         b,
@@ -398,26 +486,33 @@ fn session_params(g: &mut G, idx: usize, scheme: u8, tsi_class: usize, variant: 
     }
 }
 
-fn one_session(g: &mut G, idx: usize, p: &SessP, ops_per_policy: usize) {
-    let scheme = p.scheme;
-    g.ctx.case(&format!("rewidth/s{}-fec{}-baseline", idx, scheme));
-    let (stream, added) = match run_sender(p) {
+/// `wire session rewidth <16 session tokens> <policy> <policy_seed>`: the whole session inside the op
+pub(crate) fn exec(t: &[&str], o: &mut Oracle, st: &mut Stash) -> Option<String> {
+    if t.len() != 18 {
+        return None;
+    }
+    let p = SessP::parse(&t[..16])?;
+    let pol = *POLICIES.iter().find(|x| **x == t[16])?;
+    let mut rng = Rng::new(crate::nat_lt(t[17], 64)? as u64);
+    let (stream, added) = match run_sender(&p) {
         Ok(x) => x,
-        Err(e) => {
-            if std::env::var("WIRE_REWIDTH_DEBUG").is_ok() {
-                eprintln!("rewidth: session not produced: {} :: {}", e, p.desc());
-            }
-            g.ctx.count(&format!("rewidth:session-not-produced:{}", e.split(':').next().unwrap_or("?")));
-            return;
+        Err(NoSession::Refused(e)) => {
+            st.note(&format!("rewidth:session-not-produced:{}", e.split(':').next().unwrap_or("?")), 1);
+            return Some("ok".to_string());
+        }
+        Err(NoSession::Panic(loc)) => {
+            st.note(&format!("rewidth:sender-panic:{}", loc), 1);
+            return Some("PANIC".to_string());
         }
     };
-    g.ctx.count(&format!("rewidth:{}", scheme));
-    g.ctx.count(&format!("rewidth-tsi-class:{}", p.tsi_class()));
-    g.ctx.count(&format!("rewidth-toi-max:{}", p.toi_bits));
-    g.sessions += 1;
-    g.packets += stream.len();
+    st.produced = true;
+    st.stream = stream.iter().map(|(d, _)| d.clone()).collect();
     let base = run_rx(p.tsi, &stream);
-    let base_ok = base.panic.is_none() && base.objs.len() == added && base.objs.iter().enumerate().all(|(_, o)| o.complete && !o.error) && added == p.sizes.len() && {
+    if base.panic.is_some() {
+        st.note("rewidth:baseline-receiver-panic", 1);
+        return Some("PANIC".to_string());
+    }
+    st.baseline_ok = base.objs.len() == added && base.objs.iter().all(|o| o.complete && !o.error) && added == p.sizes.len() && {
         // every object delivered with the content that was sent
         let mut sent: Vec<Vec<u8>> = (0..p.sizes.len()).map(|i| p.content(i)).collect();
         let mut got: Vec<Vec<u8>> = base.objs.iter().map(|o| o.data.clone()).collect();
@@ -425,81 +520,106 @@ fn one_session(g: &mut G, idx: usize, p: &SessP, ops_per_policy: usize) {
         got.sort();
         sent == got
     };
-    g.ctx.count(if base_ok { "rewidth:baseline-all-objects-delivered" } else { "rewidth:baseline-incomplete" });
-    if !base_ok && std::env::var("WIRE_REWIDTH_DEBUG").is_ok() {
-        let o: Vec<String> = base.objs.iter().map(|o| format!("toi={} {} len={} complete={} error={}", o.toi, o.location, o.data.len(), o.complete, o.error)).collect();
-        eprintln!("rewidth: baseline incomplete: added={} panic={:?} push_errors={} fdts={} objs={:?} :: {}", added, base.panic, base.push_errors, base.fdts.len(), o, p.desc());
-    }
     let decoded: Vec<Option<rd::LctFields>> = stream.iter().map(|(d, _)| rd::decode_lct(d)).collect();
     if decoded.iter().any(|f| f.is_none()) {
         // a genuine sender packet the independent decoder rejects (the `pkt`/`parse` families own that oracle)
-        g.ctx.count("rewidth:sender-packet-not-decodable");
+        st.note("rewidth:sender-packet-not-decodable", 1);
+        return Some("ok".to_string());
+    }
+    let mut re: Stream = Vec::with_capacity(stream.len());
+    let mut parse_reported = false;
+    for ((d, t), f) in stream.iter().zip(&decoded) {
+        let f = f.as_ref().unwrap();
+        let w = choose(pol, f, &mut rng);
+        let r = match rd::rewidth(d, w.0 as u64, w.1 as u64, w.2 as u64, w.3 as u64) {
+            Some(r) => r,
+            None => {
+                o.fail("C06:harness-bug", &format!("rfcdec::rewidth refuses legal flags {:?} for {}", w, crate::short(&hex(d))));
+                d.clone()
+            }
+        };
+        if w != (f.c, f.s, f.o, f.h) {
+            st.changed += 1;
+        }
+        if !parse_reported {
+            if let Some(diff) = parse_diff(d, &r) {
+                parse_reported = true;
+                o.fail("C06:rewidth-parse", &format!("{} policy {} flags {:?}: {} :: original {} re-encoded {}", p.desc(), pol, w, diff, crate::short(&hex(d)), crate::short(&hex(&r))));
+            }
+        }
+        st.flags.push(w);
+        re.push((r, *t));
+    }
+    let got = run_rx(p.tsi, &re);
+    st.re = re.into_iter().map(|(d, _)| d).collect();
+    if got != base {
+        o.fail("C06:rewidth-delivery", &format!("{} policy {}: {}", p.desc(), pol, first_difference(&base, &got)));
+    }
+    Some(if got.panic.is_some() { "PANIC" } else { "ok" }.to_string())
+}
+
+/// generator side of one (session, policy): the op, the statistics, the subsample shown to the model
+fn one_policy(g: &mut G, idx: usize, p: &SessP, pol: &str, first: bool, ops_per_policy: usize) {
+    let scheme = p.scheme;
+    g.ctx.case(&format!("rewidth/s{}-fec{}-{}", idx, scheme, pol));
+    let seed = g.rng2.next();
+    let obs = g.step(&format!("wire session rewidth {} {} {}", p.tokens(), pol, seed));
+    let (stream, re, flags, produced, baseline_ok, changed, notes) = {
+        let mut st = g.stash.borrow_mut();
+        (std::mem::take(&mut st.stream), std::mem::take(&mut st.re), std::mem::take(&mut st.flags), st.produced, st.baseline_ok, st.changed, std::mem::take(&mut st.notes))
+    };
+    for (k, n) in notes {
+        *g.ctx.dist.entry(k).or_insert(0) += n;
+    }
+    if !produced || obs != "ok" || re.len() != stream.len() || stream.is_empty() {
         return;
     }
-    for pol in POLICIES {
-        g.ctx.case(&format!("rewidth/s{}-fec{}-{}", idx, scheme, pol));
-        let mut changed = 0usize;
-        let mut re: Stream = Vec::with_capacity(stream.len());
-        let mut flags: Vec<(u8, u8, u8, u8)> = Vec::with_capacity(stream.len());
-        let mut parse_reported = false;
-        for ((d, t), f) in stream.iter().zip(&decoded) {
-            let f = f.as_ref().unwrap();
-            let w = choose(pol, f, &mut g.rng2);
-            let r = match rd::rewidth(d, w.0 as u64, w.1 as u64, w.2 as u64, w.3 as u64) {
-                Some(r) => r,
-                None => {
-                    g.ctx.oracle_fail("C06:harness-bug", &format!("rfcdec::rewidth refuses legal flags {:?} for {}", w, hex(d)));
-                    d.clone()
-                }
-            };
-            if w != (f.c, f.s, f.o, f.h) {
-                changed += 1;
-            }
-            if !parse_reported {
-                if let Some(diff) = parse_diff(d, &r) {
-                    parse_reported = true;
-                    g.ctx.oracle_fail("C06:rewidth-parse", &format!("{} policy {} flags {:?}: {} :: original {} re-encoded {}", p.desc(), pol, w, diff, crate::short(&hex(d)), crate::short(&hex(&r))));
-                }
-            }
-            flags.push(w);
-            re.push((r, *t));
-        }
-        g.ctx.count(&format!("rewidth-policy:{}", pol));
-        *g.ctx.dist.entry(format!("rewidth-packets-changed:{}", pol)).or_insert(0) += changed as u64;
-        g.reencoded += changed;
-        let got = run_rx(p.tsi, &re);
-        if got != base {
-            g.ctx.oracle_fail("C06:rewidth-delivery", &format!("{} policy {}: {}", p.desc(), pol, first_difference(&base, &got)));
-        }
-        if base_ok && changed > 0 {
-            g.ctx.nontrivial(&format!("rewidth:{}:{}:{}:{}:{}", scheme, pol, p.tsi_class(), p.toi_bits, p.inband_fti));
-        }
-        // op stream: the Lean model on genuine packets at other widths
-        let n = stream.len();
-        let mut pick: Vec<usize> = vec![0, n / 2, n - 1];
-        // the first packet of every object (TOI != 0)
-        let mut seen: Vec<u128> = Vec::new();
-        for (i, f) in decoded.iter().enumerate() {
-            let toi = f.as_ref().unwrap().toi;
-            if !seen.contains(&toi) {
-                seen.push(toi);
+    if first {
+        g.ctx.count(&format!("rewidth:{}", scheme));
+        g.ctx.count(&format!("rewidth-tsi-class:{}", p.tsi_class()));
+        g.ctx.count(&format!("rewidth-toi-max:{}", p.toi_bits));
+        g.ctx.count(if baseline_ok { "rewidth:baseline-all-objects-delivered" } else { "rewidth:baseline-incomplete" });
+        g.sessions += 1;
+        g.packets += stream.len();
+    }
+    g.ctx.count(&format!("rewidth-policy:{}", pol));
+    *g.ctx.dist.entry(format!("rewidth-packets-changed:{}", pol)).or_insert(0) += changed as u64;
+    g.reencoded += changed;
+    if baseline_ok && changed > 0 {
+        g.ctx.nontrivial(&format!("rewidth:{}:{}:{}:{}:{}", scheme, pol, p.tsi_class(), p.toi_bits, p.inband_fti));
+    }
+    // op stream: the Lean model on genuine packets at other widths
+    let n = stream.len();
+    let mut pick: Vec<usize> = vec![0, n / 2, n - 1];
+    // the first packet of every object
+    let mut seen: Vec<u128> = Vec::new();
+    for (i, d) in stream.iter().enumerate() {
+        if let Some(f) = rd::decode_lct(d) {
+            if !seen.contains(&f.toi) {
+                seen.push(f.toi);
                 pick.push(i);
             }
         }
-        while pick.len() < ops_per_policy.min(n) {
-            pick.push(g.rng2.below(n as u64) as usize);
+    }
+    while pick.len() < ops_per_policy.min(n) {
+        pick.push(g.rng2.below(n as u64) as usize);
+    }
+    pick.sort();
+    pick.dedup();
+    pick.truncate(ops_per_policy);
+    for i in pick {
+        let w = flags[i];
+        let obs = g.step(&format!("wire rewidth {} {} {} {} {}", hex(&stream[i]), w.0, w.1, w.2, w.3));
+        if obs != format!("ok {}", hex(&re[i])) {
+            g.ctx.oracle_fail("C06:harness-bug", &format!("op rewidth differs from the session op's re-encoding: {}", crate::short(&obs)));
         }
-        pick.sort();
-        pick.dedup();
-        pick.truncate(ops_per_policy);
-        for i in pick {
-            let w = flags[i];
-            let obs = g.step(&format!("wire rewidth {} {} {} {} {}", hex(&stream[i].0), w.0, w.1, w.2, w.3));
-            if obs != format!("ok {}", hex(&re[i].0)) {
-                g.ctx.oracle_fail("C06:harness-bug", &format!("op rewidth differs from the generator's re-encoding: {}", obs));
-            }
-            g.step(&format!("wire parse {}", hex(&re[i].0)));
-        }
+        g.step(&format!("wire parse {}", hex(&re[i])));
+    }
+}
+
+fn one_session(g: &mut G, idx: usize, p: &SessP, ops_per_policy: usize) {
+    for (k, pol) in POLICIES.iter().enumerate() {
+        one_policy(g, idx, p, pol, k == 0, ops_per_policy);
     }
 }
 
